@@ -14,11 +14,12 @@ RULE = ("P producer threads x K callFromThread calls each against a reactor thre
         "all schedules with at most B preemptions are run; the harness's doIteration blocks (in the scheduler) until the real waker pipe "
         "is readable, so a lost wake-up is a deadlock. non-trivial = distinct schedules in which a producer ran between two lines of "
         "runUntilCurrent's thread-queue block or the reactor ran between two lines of a callFromThread")
-BOUNDS = {"quick": "2 producers x 2 calls, <= 2 preemptions", "thorough": "2x2 with <= 3 preemptions; 3 producers x 2 calls and 2x3 with <= 2"}
+BOUNDS = {"quick": "2 producers x 1 call, 1 producer x 2 calls, 1 producer x 3 calls; <= 2 preemptions each",
+          "thorough": "2x2 with <= 2 and <= 3 preemptions; 3x2 and 2x3 with <= 2; 3x1 with <= 3"}
 ASSUMPTIONS = ["one Python source line is atomic (the code relies only on list.append / del slice atomicity under the GIL)",
                "real select/poll/epoll are replaced by the harness's doIteration, which reads readiness of the real waker pipe; what is decided is the Twisted-side queue+waker protocol",
                "states/transitions count scheduler steps executed on the real code"]
-MIN = {"quick": {"evaluations": 2000, "nontrivial": 500, "outcomes": 3}}
+MIN = {"quick": {"evaluations": 1500, "nontrivial": 500, "outcomes": 3}}
 
 
 def _mk_reactor(s, log, total):
@@ -121,8 +122,8 @@ def run_one(ch, nprod, ncalls):
     return bad, tuple((p, i) for p, i, t in ran), s.steps, switches
 
 
-CONFIGS_Q = [(2, 2, 2)]
-CONFIGS_T = [(2, 2, 3), (3, 2, 2), (2, 3, 2)]
+CONFIGS_Q = [(2, 1, 2), (1, 2, 2), (1, 3, 2)]
+CONFIGS_T = [(2, 2, 2), (2, 2, 3), (3, 2, 2), (2, 3, 2), (3, 1, 3)]
 
 
 def shards(tier, seed):
